@@ -1,60 +1,98 @@
-/* C07: read_gnu_new_sparse / decode (lib/tar/src/read_sparse_map_new.c),
- * GNU sparse format 1.0 map. The stream delivers arbitrary bytes, errors and
- * short transfers; the 1 KiB window is fully symbolic.
+/* C07: read_gnu_new_sparse (lib/tar/src/read_sparse_map_new.c), GNU sparse
+ * format 1.0 map, UNBOUNDED in the number of entries: the main loop is
+ * closed by the loop contract of contracts/loops/C07.tbl. The stream
+ * delivers arbitrary bytes, errors and short transfers.
  *
- * decode's loop is unwound to the window size (1024 - a constant of the
- * code) with an unwinding assertion. The main loop is BOUNDED: paths that
- * allocate more than MAXENT map entries end by assumption (in the calloc
- * contract). An unbounded loop contract was attempted and abandoned - see
- * ASSUMPTIONS in cases.py.
+ * Modular: calls to the static helper decode() are redirected
+ * (goto-instrument --replace-calls) to stub_decode below, which IS decode's
+ * contract: it checks decode's precondition at each call site and returns
+ * every result the contract permits. The contract is stated over the ghost
+ * "digit run length R at this stream position" (arbitrary, but the same
+ * value when the same position is scanned again - that rescan consistency
+ * is what keeps `diff` in range). decode itself is verified against the
+ * contract in harnesses decode_safety (unbounded) and decode_spec (bounded).
  *
- *  C07.sparse_new.cursor   (contracts of the stream and of memcpy below)
- *        the stream is only ever read in whole 512-byte records, once into
- *        the lower half and then only into the upper half of the window,
- *        which is moved down exactly once per such read; together with the
- *        CBMC bounds checks on every buffer[diff + ..] access this is
- *        0 <= diff <= 512 and "reads only halves that hold stream data"
- *  C07.limits.sparse_ent   an entry count of 0 or above TAR_MAX_SPARSE_ENT
- *        is refused before the first node is allocated (ghost: the count is
- *        re-parsed by the harness from the first record)
+ *  C07.sparse_new.cursor   1 <= diff <= 512 (loop invariant); every range
+ *        handed to decode lies inside the part of the 1 KiB window that
+ *        holds stream data (ghost g_ns_valid); the stream is only ever read
+ *        in whole 512-byte records, once into the lower half and then only
+ *        into the upper half, which is moved down exactly once per read
+ *  C07.termination         decreases clause of the loop
+ *  C07.limits.sparse_ent   no more than TAR_MAX_SPARSE_ENT nodes are ever
+ *        requested from the allocator
  *  C07.sparse_new.record_size   out->record_size goes down by 512 per
  *        record consumed and never wraps
  *  C07.sparse_new.fail_stop     a stream error / short record => NULL
- *  C07.sparse_new.list     on success the result is a NULL-terminated list
- *        of exactly the allocated nodes
+ *
+ * Heap abstraction (stated in ASSUMPTIONS): calloc's contract is modelled by
+ * one summary node, free_sparse_list by its contract; the function never
+ * reads a node field, so the cursor proof is independent of list shape. The
+ * list shape itself is covered by harness old_sparse / pax_header style
+ * bounded runs only.
  */
 #include "verif.h"
+#include "lib/tar/src/internal.h"
+
+static sparse_map_t g_ns_node;
+size_t g_ns_valid;
+unsigned int g_ns_reads, g_ns_nodes;
+sqfs_u64 g_ns_size0;
+int g_ns_failed;
+int g_ns_have;
+size_t g_ns_last_off, g_ns_last_run;
+
 #include "lib/tar/src/read_sparse_map_new.c"
-#include "lib/tar/src/cleanup.c"
 
-#ifndef MAXENT
-#define MAXENT 1
-#endif
+/* ------------------------------------------------- contract of decode() */
+int stub_decode(const char *str, size_t len, size_t *out)
+{
+	size_t off = VERIF_POINTER_OFFSET(str);
+	size_t run;
 
+	VERIF_ASSERT(VERIF_R_OK(str, len) && off + len <= g_ns_valid &&
+		     g_ns_valid <= 1024 && VERIF_W_OK(out, sizeof(*out)),
+		     "C07.sparse_new.cursor");
+
+	/* R: number of consecutive digits in the stream from this position
+	 * on; arbitrary, but a fact about the stream, hence the same when
+	 * the same position is scanned again */
+	if (g_ns_have && g_ns_last_off == off) {
+		run = g_ns_last_run;
+	} else {
+		run = verif_nd_size("decode.run");
+		g_ns_have = 1;
+		g_ns_last_off = off;
+		g_ns_last_run = run;
+	}
+
+	*out = verif_nd_size("decode.value");
+
+	if (run >= 1 && verif_nd_bool("decode.overflow"))
+		return -1;
+	if (run == 0 || run >= len)
+		return 0;
+	if (verif_nd_bool("decode.newline"))
+		return (int)run + 1;
+	return -1;
+}
+
+/* ------------------------------------------------------------ environment */
 static const char *env_get_filename(sqfs_istream_t *strm)
 {
 	(void)strm;
 	return "stdin";
 }
 static sqfs_istream_t g_strm;
-static size_t g_ns_valid;
-static unsigned int g_ns_reads, g_ns_nodes;
-static sqfs_u64 g_ns_size0;
-static int g_ns_failed;
-static int g_ns_count_ok;	/* first record starts with 1..65536 '\n' */
 
 void sqfs_perror(const char *file, const char *action, int error_code)
 {
 	(void)file; (void)action; (void)error_code;
 }
 
-void sqfs_xattr_list_free(sqfs_xattr_t *list)
-{
-	(void)list;
-}
-
 sqfs_s32 sqfs_istream_read(sqfs_istream_t *strm, void *data, size_t size)
 {
+	size_t k;
+	uint8_t v;
 	int r;
 
 	VERIF_ASSERT(strm == &g_strm && size == 512 &&
@@ -69,26 +107,13 @@ sqfs_s32 sqfs_istream_read(sqfs_istream_t *strm, void *data, size_t size)
 		return r;
 	}
 	VERIF_ASSUME(r <= 512);
+	k = verif_nd_size("read.k");
+	v = verif_nd_u8("read.v");
+	if (k < (size_t)r)
+		((uint8_t *)data)[k] = v;
 	if (r == 512) {
-		verif_nd_bytes(data, 512, "record");
-		if (g_ns_reads == 0) {
-			/* independent re-parse of the entry count */
-			const unsigned char *p = data;
-			unsigned long v = 0;
-			size_t i = 0;
-
-			while (i < 7 && p[i] >= '0' && p[i] <= '9') {
-				v = v * 10 + (p[i] - '0');
-				++i;
-			}
-			g_ns_count_ok = (i > 0 && p[i] == '\n' && v >= 1 &&
-					 v <= TAR_MAX_SPARSE_ENT);
-			/* leading zeros can make the count field longer */
-			if (i == 7 && p[i] >= '0' && p[i] <= '9')
-				g_ns_count_ok = 2;	/* unknown */
-		} else {
+		if (g_ns_reads > 0)
 			g_ns_valid = 1024;
-		}
 		++g_ns_reads;
 	} else {
 		g_ns_failed = 1;
@@ -96,50 +121,54 @@ sqfs_s32 sqfs_istream_read(sqfs_istream_t *strm, void *data, size_t size)
 	return r;
 }
 
-#ifndef VERIF_REPLAY
 void *memcpy(void *dst, const void *src, size_t n)
 {
-	size_t i;
+	size_t k;
 
 	VERIF_ASSERT(n == 512 && VERIF_SAME_OBJECT(dst, src) &&
 		     VERIF_POINTER_OFFSET(dst) == 0 &&
 		     VERIF_POINTER_OFFSET(src) == 512 && g_ns_valid == 1024,
 		     "C07.sparse_new.cursor");
-	for (i = 0; i < 512; ++i)
-		((char *)dst)[i] = ((const char *)src)[i];
+	k = verif_nd_size("memcpy.k");
+	if (k < n)
+		((char *)dst)[k] = ((const char *)src)[k];
 	g_ns_valid = 512;
+	g_ns_have = 0;		/* window positions now name other bytes */
 	return dst;
 }
 
 void *calloc(size_t n, size_t size)
 {
-	sparse_map_t *p;
-
 	VERIF_ASSERT(n == 1 && size == sizeof(sparse_map_t),
 		     "C07.sparse_new.calloc_pre");
-	VERIF_ASSERT(g_ns_count_ok != 0, "C07.limits.sparse_ent");
 	VERIF_ASSERT(g_ns_nodes < TAR_MAX_SPARSE_ENT, "C07.limits.sparse_ent");
-	/* bound of this harness */
-	VERIF_ASSUME(g_ns_nodes < MAXENT);
 	if (verif_nd_bool("calloc.fail"))
 		return NULL;
-	p = malloc(sizeof(*p));
-	VERIF_ASSUME(p != NULL);
-	p->next = NULL;
-	p->offset = 0;
-	p->count = 0;
 	++g_ns_nodes;
-	return p;
+	g_ns_node.next = NULL;
+	g_ns_node.offset = 0;
+	g_ns_node.count = 0;
+	return &g_ns_node;
 }
-#endif
+
+void free_sparse_list(sparse_map_t *sparse)
+{
+	VERIF_ASSERT(sparse == NULL || sparse == &g_ns_node,
+		     "C07.sparse_new.free_pre");
+}
 
 void harness(void)
 {
 	tar_header_decoded_t out;
-	sparse_map_t *list, *it;
-	unsigned int n = 0;
+	sparse_map_t *list;
 
+	/* statics are not reliably initialised once goto-instrument has
+	 * applied loop contracts: set all ghost state explicitly */
 	g_ns_valid = 512;
+	g_ns_reads = 0;
+	g_ns_nodes = 0;
+	g_ns_failed = 0;
+	g_ns_have = 0;
 	g_strm.get_filename = env_get_filename;
 
 	memset(&out, 0, sizeof(out));
@@ -156,13 +185,11 @@ void harness(void)
 		VERIF_ASSERT(out.record_size + 512 * (sqfs_u64)g_ns_reads ==
 			     g_ns_size0, "C07.sparse_new.record_size");
 		VERIF_ASSERT(!g_ns_failed, "C07.sparse_new.fail_stop");
-		for (it = list; it != NULL && n <= MAXENT; it = it->next)
-			++n;
-		VERIF_ASSERT(it == NULL && n == g_ns_nodes && n >= 1,
-			     "C07.sparse_new.list");
+		VERIF_ASSERT(g_ns_nodes >= 1 &&
+			     g_ns_nodes <= TAR_MAX_SPARSE_ENT,
+			     "C07.limits.sparse_ent");
 		VERIF_COVER(g_ns_reads == 1);
 		VERIF_COVER(g_ns_reads > 1);
-		free_sparse_list(list);
 	} else {
 		VERIF_COVER(g_ns_failed);
 		VERIF_COVER(!g_ns_failed && g_ns_reads >= 1);
